@@ -687,6 +687,29 @@ pub fn check_execution(p: &Prepared, out: &Outcome) -> Quiescent {
             if got > w || got < at_least {
                 fs.push(TFinding { property: "C12", monitor: format!("{flav}/wrong-count-under-concurrency/{}", e.op.kind()), detail: format!("thread {} {} returned {}, {w} used caches match ({at_least} of them used before the request started)", e.thread, e.op.render(), e.result) });
             }
+            if w > 0 && stores_in_threads {
+                // stores race with the request: what a matching cache held *before the threads started* and nobody
+                // called again can only be there afterwards if the request skipped that cache
+                for f in p.funcs.iter().filter(|f| f.flavour != Flavour::Thread) {
+                    let matches = match &e.op {
+                        TOp::ByTag(x) => f.tags.contains(&x.as_str()),
+                        TOp::ByEvent(x) => f.events.contains(&x.as_str()),
+                        TOp::ByDep(x) => f.deps.contains(&x.as_str()),
+                        TOp::InvCache { f: ff } => *ff == f.id,
+                        _ => false,
+                    };
+                    if !matches {
+                        continue;
+                    }
+                    let before: BTreeSet<u32> = d.setup.iter().filter_map(|s| if let SOp::Op(TOp::Call { f: ff, k }) = s { if *ff == f.id { Some(*k) } else { None } } else { None }).collect();
+                    let called: BTreeSet<u32> = d.threads.iter().flatten().filter_map(|o| if let TOp::Call { f: ff, k } = o { if *ff == f.id { Some(*k) } else { None } } else { None }).collect();
+                    let left = l1::list_keys(f.name).unwrap_or_default();
+                    let survivors: Vec<&String> = left.iter().filter(|k| k.parse::<u32>().map_or(false, |kk| before.contains(&kk) && !called.contains(&kk))).collect();
+                    if !survivors.is_empty() {
+                        fs.push(TFinding { property: "C12", monitor: format!("{flav}/entry-from-before-the-request-survived/{}", e.op.kind()), detail: format!("thread {} {} returned {} although {} still holds {:?}, stored before the threads started and not called since", e.thread, e.op.render(), e.result, f.fn_name, survivors) });
+                    }
+                }
+            }
             if w > 0 && !stores_in_threads {
                 for f in p.funcs.iter().filter(|f| f.flavour != Flavour::Thread) {
                     let matches = match &e.op {
